@@ -267,8 +267,8 @@ def compare(src, rv):
 
     for ln, got in sorted(rv.get("holding", {}).items()):
         ln = int(ln)
-        if ln > len(lines) or not lines[ln - 1].strip():
-            continue
+        if ln > len(lines) or not lines[ln - 1].strip() or lines[ln - 1].lstrip().startswith("#"):
+            continue  # blank and comment-only lines hold no code: which scope 'holds' them is not defined
         o = innermost(tree, ln)
         exp = (o["kind"], o["start"])
         got = tuple(got)
